@@ -582,4 +582,164 @@ theorem monthday_stage_total (m dd : Int) (tmo : Option Time) (c : DateRange)
   have hmd : andChainNotNone [some (Num.int m), some (Num.int dd)] = true := by simp [andChainNotNone]
   simp only [resolveDateAgainstConstraint, hmd, if_true, hy, bind, Except.bind, hr, pure, Except.pure]
 
+/-! ## every candidate string of the grammar satisfies the hypotheses of `evaluate_sound` -/
+
+/-- time-of-day forms (not parts of day) -/
+def IsTod : TimeForm → Prop
+  | .pod _ => False
+  | _ => True
+
+/-- the candidate strings of C15 in the grammar of C14: `XXXX-WXX-d`, `XXXX-MM-DD`, each alone or followed by
+`Thh[:mm[:ss]]`, and `Thh[:mm[:ss]]` alone -/
+inductive CandForm
+  | weekday (w : Dg) (g : Option TimeForm)
+  | monthday (m1 m2 d1 d2 : Dg) (g : Option TimeForm)
+  | time (g : TimeForm)
+
+def CandForm.render : CandForm → Str
+  | .weekday w none => renderD (.weekday w)
+  | .weekday w (some g) => renderD (.weekday w) ++ renderT g
+  | .monthday m1 m2 d1 d2 none => renderD (.openyear m1 m2 d1 d2)
+  | .monthday m1 m2 d1 d2 (some g) => renderD (.openyear m1 m2 d1 d2) ++ renderT g
+  | .time g => renderT g
+
+def CandForm.ok : CandForm → Prop
+  | .weekday w g => w.val ≠ 0 ∧ ∀ g', g = some g' → IsTod g'
+  | .monthday _ _ _ _ g => ∀ g', g = some g' → IsTod g'
+  | .time g => IsTod g
+
+theorem clock_of_digits (a b c d e f : Dg) :
+    ClockT ⟨.int ((a.val * 10 + b.val : Nat) : Int), .int ((c.val * 10 + d.val : Nat) : Int),
+            .int ((e.val * 10 + f.val : Nat) : Int)⟩ := by
+  have := a.isLt; have := b.isLt; have := c.isLt; have := d.isLt; have := e.isLt; have := f.isLt
+  exact ⟨a.val * 10 + b.val, c.val * 10 + d.val, e.val * 10 + f.val, by omega, by omega, by omega, rfl⟩
+
+/-- **candKind_of_grammar** — for EVERY candidate string of these forms (digits universally quantified) `Timex(s)` is of
+a `CandKind` family and its time of day, if any, is clock-like: the hypotheses `cand` / `candClock` of `evaluate_sound`
+hold for all of them, not only for the examples -/
+theorem candKind_of_grammar (cfg : Cfg) (hc : CfgOK cfg) (w : CandForm) (hw : w.ok) :
+    CandKind (parse cfg w.render) ∧ ∀ tm, (parse cfg w.render).time = some tm → ClockT tm := by
+  have h88 : isDig cfg.dv 88 = false := by simp [isDig, hc.dv.2 88 (by decide)]
+  have h45 : isDig cfg.dv 45 = false := by simp [isDig, hc.dv.2 45 (by decide)]
+  have h87 : isDig cfg.dv 87 = false := by simp [isDig, hc.dv.2 87 (by decide)]
+  have h58 : isDig cfg.dv 58 = false := by simp [isDig, hc.dv.2 58 (by decide)]
+  have z := clock_of_digits
+  cases w with
+  | time g =>
+    cases g with
+    | pod p => exact absurd hw (by simp [CandForm.ok, IsTod])
+    | h h1 h2 =>
+      have e : parse cfg (CandForm.time (.h h1 h2)).render =
+          { time := some ⟨.int ((h1.val * 10 + h2.val : Nat) : Int), .int ((0 * 10 + 0 : Nat) : Int), .int ((0 * 10 + 0 : Nat) : Int)⟩ } := by
+        simp only [CandForm.render]
+        rw [parse_renderT cfg hc, extract_date_nil cfg hc, hc.time]
+        simp [extract, stdTime, firstSome, matchItems, renderT, isDig_dch cfg hc, dictMerge, dictSet, Timex.assign,
+          parseNatDv, dv_dch cfg hc, Timex.setHour, h58, dch_ne, ne_dch]
+      rw [e]
+      exact ⟨CandKind.timeonly _, fun tm htm => by cases htm; exact z h1 h2 0 0 0 0⟩
+    | hm h1 h2 m1 m2 =>
+      have e : parse cfg (CandForm.time (.hm h1 h2 m1 m2)).render =
+          { time := some ⟨.int ((h1.val * 10 + h2.val : Nat) : Int), .int ((m1.val * 10 + m2.val : Nat) : Int), .int ((0 * 10 + 0 : Nat) : Int)⟩ } := by
+        simp only [CandForm.render]
+        rw [parse_renderT cfg hc, extract_date_nil cfg hc, hc.time]
+        simp [extract, stdTime, firstSome, matchItems, renderT, isDig_dch cfg hc, dictMerge, dictSet, Timex.assign,
+          parseNatDv, dv_dch cfg hc, Timex.setHour, Timex.setMinute, h58, dch_ne, ne_dch]
+      rw [e]
+      exact ⟨CandKind.timeonly _, fun tm htm => by cases htm; exact z h1 h2 m1 m2 0 0⟩
+    | hms h1 h2 m1 m2 s1 s2 =>
+      have e : parse cfg (CandForm.time (.hms h1 h2 m1 m2 s1 s2)).render =
+          { time := some ⟨.int ((h1.val * 10 + h2.val : Nat) : Int), .int ((m1.val * 10 + m2.val : Nat) : Int), .int ((s1.val * 10 + s2.val : Nat) : Int)⟩ } := by
+        simp only [CandForm.render]
+        rw [parse_renderT cfg hc, extract_date_nil cfg hc, hc.time]
+        simp [extract, stdTime, firstSome, matchItems, renderT, isDig_dch cfg hc, dictMerge, dictSet, Timex.assign,
+          parseNatDv, dv_dch cfg hc, Timex.setHour, Timex.setMinute, Timex.setSecond, h58, dch_ne, ne_dch]
+      rw [e]
+      exact ⟨CandKind.timeonly _, fun tm htm => by cases htm; exact z h1 h2 m1 m2 s1 s2⟩
+  | weekday wd g =>
+    cases g with
+    | none =>
+      have e : parse cfg (CandForm.weekday wd none).render = { dayOfWeek := some (.int ((wd.val : Nat) : Int)), time := none } := by
+        simp only [CandForm.render]
+        rw [parse_renderD cfg hc, hc.date]
+        simp [extract, stdDate, stdTime, xxxx, firstSome, matchItems, renderD, renderT, isDig_dch cfg hc, startsWith, dictMerge,
+          dictSet, Timex.assign, parseNatDv, dv_dch cfg hc, Timex.setHour, Timex.setMinute, Timex.setSecond, h88, h45, h87,
+          h58, dch_ne, ne_dch, isDig, hc.dv.2]
+      rw [e]
+      exact ⟨CandKind.weekday _ _, fun tm htm => by cases htm⟩
+    | some g =>
+      have hcomb : Combinable (.weekday wd) := by
+        simp only [Combinable]; exact hw.1
+      cases g with
+      | pod p => exact absurd ((hw.2 _ rfl)) (by simp [IsTod])
+      | h h1 h2 =>
+        have e : parse cfg (CandForm.weekday wd (some (.h h1 h2))).render = { dayOfWeek := some (.int ((wd.val : Nat) : Int)), time := some ⟨.int ((h1.val * 10 + h2.val : Nat) : Int), .int ((0 * 10 + 0 : Nat) : Int), .int ((0 * 10 + 0 : Nat) : Int)⟩ } := by
+          simp only [CandForm.render]
+          rw [parse_renderDT cfg hc _ _ hcomb, hc.date, hc.time]
+          simp [extract, stdDate, stdTime, xxxx, firstSome, matchItems, renderD, renderT, isDig_dch cfg hc, startsWith, dictMerge,
+          dictSet, Timex.assign, parseNatDv, dv_dch cfg hc, Timex.setHour, Timex.setMinute, Timex.setSecond, h88, h45, h87,
+          h58, dch_ne, ne_dch, isDig, hc.dv.2]
+        rw [e]
+        exact ⟨CandKind.weekday _ _, fun tm htm => by cases htm; exact z h1 h2 0 0 0 0⟩
+      | hm h1 h2 mi1 mi2 =>
+        have e : parse cfg (CandForm.weekday wd (some (.hm h1 h2 mi1 mi2))).render = { dayOfWeek := some (.int ((wd.val : Nat) : Int)), time := some ⟨.int ((h1.val * 10 + h2.val : Nat) : Int), .int ((mi1.val * 10 + mi2.val : Nat) : Int), .int ((0 * 10 + 0 : Nat) : Int)⟩ } := by
+          simp only [CandForm.render]
+          rw [parse_renderDT cfg hc _ _ hcomb, hc.date, hc.time]
+          simp [extract, stdDate, stdTime, xxxx, firstSome, matchItems, renderD, renderT, isDig_dch cfg hc, startsWith, dictMerge,
+          dictSet, Timex.assign, parseNatDv, dv_dch cfg hc, Timex.setHour, Timex.setMinute, Timex.setSecond, h88, h45, h87,
+          h58, dch_ne, ne_dch, isDig, hc.dv.2]
+        rw [e]
+        exact ⟨CandKind.weekday _ _, fun tm htm => by cases htm; exact z h1 h2 mi1 mi2 0 0⟩
+      | hms h1 h2 mi1 mi2 s1 s2 =>
+        have e : parse cfg (CandForm.weekday wd (some (.hms h1 h2 mi1 mi2 s1 s2))).render = { dayOfWeek := some (.int ((wd.val : Nat) : Int)), time := some ⟨.int ((h1.val * 10 + h2.val : Nat) : Int), .int ((mi1.val * 10 + mi2.val : Nat) : Int), .int ((s1.val * 10 + s2.val : Nat) : Int)⟩ } := by
+          simp only [CandForm.render]
+          rw [parse_renderDT cfg hc _ _ hcomb, hc.date, hc.time]
+          simp [extract, stdDate, stdTime, xxxx, firstSome, matchItems, renderD, renderT, isDig_dch cfg hc, startsWith, dictMerge,
+          dictSet, Timex.assign, parseNatDv, dv_dch cfg hc, Timex.setHour, Timex.setMinute, Timex.setSecond, h88, h45, h87,
+          h58, dch_ne, ne_dch, isDig, hc.dv.2]
+        rw [e]
+        exact ⟨CandKind.weekday _ _, fun tm htm => by cases htm; exact z h1 h2 mi1 mi2 s1 s2⟩
+  | monthday m1 m2 d1 d2 g =>
+    cases g with
+    | none =>
+      have e : parse cfg (CandForm.monthday m1 m2 d1 d2 none).render = { month := some (.int ((m1.val * 10 + m2.val : Nat) : Int)), dayOfMonth := some (.int ((d1.val * 10 + d2.val : Nat) : Int)), time := none } := by
+        simp only [CandForm.render]
+        rw [parse_renderD cfg hc, hc.date]
+        simp [extract, stdDate, stdTime, xxxx, firstSome, matchItems, renderD, renderT, isDig_dch cfg hc, startsWith, dictMerge,
+          dictSet, Timex.assign, parseNatDv, dv_dch cfg hc, Timex.setHour, Timex.setMinute, Timex.setSecond, h88, h45, h87,
+          h58, dch_ne, ne_dch, isDig, hc.dv.2]
+      rw [e]
+      exact ⟨CandKind.monthday _ _ _, fun tm htm => by cases htm⟩
+    | some g =>
+      have hcomb : Combinable (.openyear m1 m2 d1 d2) := by
+        simp only [Combinable]
+      cases g with
+      | pod p => exact absurd ((hw _ rfl)) (by simp [IsTod])
+      | h h1 h2 =>
+        have e : parse cfg (CandForm.monthday m1 m2 d1 d2 (some (.h h1 h2))).render = { month := some (.int ((m1.val * 10 + m2.val : Nat) : Int)), dayOfMonth := some (.int ((d1.val * 10 + d2.val : Nat) : Int)), time := some ⟨.int ((h1.val * 10 + h2.val : Nat) : Int), .int ((0 * 10 + 0 : Nat) : Int), .int ((0 * 10 + 0 : Nat) : Int)⟩ } := by
+          simp only [CandForm.render]
+          rw [parse_renderDT cfg hc _ _ hcomb, hc.date, hc.time]
+          simp [extract, stdDate, stdTime, xxxx, firstSome, matchItems, renderD, renderT, isDig_dch cfg hc, startsWith, dictMerge,
+          dictSet, Timex.assign, parseNatDv, dv_dch cfg hc, Timex.setHour, Timex.setMinute, Timex.setSecond, h88, h45, h87,
+          h58, dch_ne, ne_dch, isDig, hc.dv.2]
+        rw [e]
+        exact ⟨CandKind.monthday _ _ _, fun tm htm => by cases htm; exact z h1 h2 0 0 0 0⟩
+      | hm h1 h2 mi1 mi2 =>
+        have e : parse cfg (CandForm.monthday m1 m2 d1 d2 (some (.hm h1 h2 mi1 mi2))).render = { month := some (.int ((m1.val * 10 + m2.val : Nat) : Int)), dayOfMonth := some (.int ((d1.val * 10 + d2.val : Nat) : Int)), time := some ⟨.int ((h1.val * 10 + h2.val : Nat) : Int), .int ((mi1.val * 10 + mi2.val : Nat) : Int), .int ((0 * 10 + 0 : Nat) : Int)⟩ } := by
+          simp only [CandForm.render]
+          rw [parse_renderDT cfg hc _ _ hcomb, hc.date, hc.time]
+          simp [extract, stdDate, stdTime, xxxx, firstSome, matchItems, renderD, renderT, isDig_dch cfg hc, startsWith, dictMerge,
+          dictSet, Timex.assign, parseNatDv, dv_dch cfg hc, Timex.setHour, Timex.setMinute, Timex.setSecond, h88, h45, h87,
+          h58, dch_ne, ne_dch, isDig, hc.dv.2]
+        rw [e]
+        exact ⟨CandKind.monthday _ _ _, fun tm htm => by cases htm; exact z h1 h2 mi1 mi2 0 0⟩
+      | hms h1 h2 mi1 mi2 s1 s2 =>
+        have e : parse cfg (CandForm.monthday m1 m2 d1 d2 (some (.hms h1 h2 mi1 mi2 s1 s2))).render = { month := some (.int ((m1.val * 10 + m2.val : Nat) : Int)), dayOfMonth := some (.int ((d1.val * 10 + d2.val : Nat) : Int)), time := some ⟨.int ((h1.val * 10 + h2.val : Nat) : Int), .int ((mi1.val * 10 + mi2.val : Nat) : Int), .int ((s1.val * 10 + s2.val : Nat) : Int)⟩ } := by
+          simp only [CandForm.render]
+          rw [parse_renderDT cfg hc _ _ hcomb, hc.date, hc.time]
+          simp [extract, stdDate, stdTime, xxxx, firstSome, matchItems, renderD, renderT, isDig_dch cfg hc, startsWith, dictMerge,
+          dictSet, Timex.assign, parseNatDv, dv_dch cfg hc, Timex.setHour, Timex.setMinute, Timex.setSecond, h88, h45, h87,
+          h58, dch_ne, ne_dch, isDig, hc.dv.2]
+        rw [e]
+        exact ⟨CandKind.monthday _ _ _, fun tm htm => by cases htm; exact z h1 h2 mi1 mi2 s1 s2⟩
+
 end RTV.Timex
